@@ -122,7 +122,9 @@ def run(ctx):
                 on_frame = tm in ft
                 if on_frame:
                     fr_i = ft.index(tm)
-                    pred = "C06.scalar.on_frame" if (t > 0 or not aligned_frames) else "C06.scalar.t0_next_frame"
+                    # known finding F-C06a: at the start step the scalar holds exactly the NEXT frame
+                    nxt = fr_i + 1 < len(svals) and same_bits(s, svals[fr_i + 1])
+                    pred = "C06.scalar.on_frame" if (t > 0 or not aligned_frames or not nxt) else "C06.scalar.t0_next_frame"
                     if not aligned_frames: pred = "C06.scalar.unaligned_dt"
                     ctx.oracle(same_bits(s, svals[fr_i]), pred, SITE,
                                "step %d coincides with frame %d: served scalar %r, frame holds %r" % (t, fr_i, s, svals[fr_i]), dict(cs, step=t))
